@@ -28,11 +28,13 @@ def main():
         cells, d, o = rand_setup(rs, nd, 1, 6 if nd == 2 else 3)
         v, kind = gens.rand_model(rs, cells)
         bad = rs.rand() < 0.1
+        scls = "outside"
         if bad:
             src = np.array(gens.outside_point(rs, list(o), [o[k] + d[k] * cells[k] for k in range(nd)])[0])
         else:
-            src = abs_source(o, gens.rand_source_rel(rs, cells, d)[0], d, cells)
-        desc = {"nd": nd, "cells": list(cells), "d": list(d), "o": list(o), "kind": str(kind), "src": src.tolist(), "v_hex": hx(v)}
+            srel, scls = gens.rand_source_rel(rs, cells, d)
+            src = abs_source(o, srel, d, cells)
+        desc = {"nd": nd, "cells": list(cells), "d": list(d), "o": list(o), "kind": str(kind), "src": src.tolist(), "scls": str(scls), "v_hex": hx(v)}
         case = {"desc": desc, "status": "ok", "values": {}}
         try:
             E = eik(nd)(v, d, o)
